@@ -207,13 +207,23 @@ Definition obs_meta (p : ab_params) (prof : profile) (len size : Z) : list Z :=
            end
   end.
 
-Definition pat (k f : Z) : Z := (f * 131 + k * 89 + 7) mod 251.
+(* bit masks instead of `mod`: Z.modulo is quadratic in the operand width under vm_compute *)
+Definition pat (k f : Z) : Z := Z.land (f * 131 + k * 89 + 7) 255.
 
-Definition pattern (k : Z) (len size : nat) : list (list Z) :=
-  map (fun i => map (fun j => pat k (Z.of_nat (i * size + j))) (seq 0 size)) (seq 0 len).
+(* element i of write k is the `size` bytes pat k (i*size) .. pat k (i*size + size - 1); Z counters (no nat arithmetic) *)
+Fixpoint pat_run (k : Z) (m : nat) (f : Z) : list Z :=
+  match m with O => [] | S m' => pat k f :: pat_run k m' (f + 1) end.
 
+Fixpoint pat_elems (k : Z) (n : nat) (size : nat) (f : Z) : list (list Z) :=
+  match n with O => [] | S n' => pat_run k size f :: pat_elems k n' size (f + Z.of_nat size) end.
+
+Definition pattern (k : Z) (len size : nat) : list (list Z) := pat_elems k len size 0.
+
+(* Fletcher-style position-sensitive checksum, additions only (cheap under vm_compute): s1 = 1 + sum of the bytes,
+   s2 = sum of the running s1; no wrap below 2^26 bytes (s1 < 2^34, s2 < 2^60).  Result s2 * 2^34 + s1. *)
 Definition cks (l : list Z) : Z :=
-  fold_left (fun h b => (h * 1000003 + b + 1) mod USIZE) l 0.
+  let '(s1, s2) := fold_left (fun '(s1, s2) b => let s1' := s1 + b in (s1', s2 + s1')) l (1, 0) in
+  s2 * 17179869184 + s1.
 
 Definition cks_view (v : option (list (list Z))) : Z :=
   match v with None => -1 | Some els => cks (concat els) end.
